@@ -34,6 +34,7 @@ type Solver struct {
 	flatModelTxt string
 	flatUsed     bool
 	skipPop      bool
+	logic        string
 	nFlat        int
 
 	nCheck, nSat, nUnsat, nUnknown int
@@ -51,8 +52,8 @@ func solverArgv(kind string) []string {
 	return []string{"/usr/bin/z3", "-in"}
 }
 
-func NewSolver(kind string, ctx *Ctx, timeoutMs int) (*Solver, error) {
-	s := &Solver{name: kind, ctx: ctx, timeout: timeoutMs}
+func NewSolver(kind string, ctx *Ctx, timeoutMs int, logic string) (*Solver, error) {
+	s := &Solver{name: kind, ctx: ctx, timeout: timeoutMs, logic: logic}
 	if err := s.start(); err != nil {
 		return nil, err
 	}
@@ -94,6 +95,9 @@ func (s *Solver) start() error {
 		s.send(fmt.Sprintf("(set-option :timeout %d)", inc))
 	}
 	s.send("(set-option :produce-models true)")
+	if s.logic != "" && kind != "cvc5" {
+		s.send("(set-logic " + s.logic + ")")
+	}
 	return nil
 }
 
@@ -380,6 +384,9 @@ func (s *Solver) flatSolve(extraRef string, names []string) string {
 	defer os.Remove(f.Name())
 	var sb strings.Builder
 	sb.WriteString("(set-option :produce-models true)\n")
+	if s.logic != "" {
+		sb.WriteString("(set-logic " + s.logic + ")\n")
+	}
 	for _, l := range s.pathLog {
 		sb.WriteString(l)
 		sb.WriteString("\n")
